@@ -28,13 +28,13 @@ import (
 //	mode "encode": the real sender lists a small tree; the raw list bytes go back for TLC to decode
 //	mode "big":    large lists through both routes, judged by the reference codec (wirekit)
 type flistScn struct {
-	ID    int             `json:"id"`
-	Mode  string          `json:"mode"`
-	Opts  flOpts          `json:"opts"`
-	Bytes []int           `json:"bytes"`
-	Tree  []fstree.Node   `json:"tree"`
-	N     int             `json:"n"`    // big: number of entries
-	Seed  int64           `json:"seed"` // big
+	ID      int             `json:"id"`
+	Mode    string          `json:"mode"`
+	Opts    flOpts          `json:"opts"`
+	Bytes   []int           `json:"bytes"`
+	Tree    []fstree.Node   `json:"tree"`
+	N       int             `json:"n"`       // big: number of entries
+	Seed    int64           `json:"seed"`    // big
 	Entries json.RawMessage `json:"entries"` // decode: the entries the spec encoded (echoed)
 }
 
@@ -65,12 +65,12 @@ type flistObs struct {
 	Opts    flOpts          `json:"opts"`
 	Bytes   []int           `json:"bytes"`
 	Err     string          `json:"err"`
-	Decoded []flEntry       `json:"decoded"`  // decode: what the real receiver made of Bytes; encode: the tree as lstat sees it
+	Decoded []flEntry       `json:"decoded"` // decode: what the real receiver made of Bytes; encode: the tree as lstat sees it
 	IOErr   int32           `json:"ioerr"`
 	Entries json.RawMessage `json:"entries"`
 	// big
-	N        int `json:"n"`
-	Mismatch int `json:"mismatch"`
+	N        int    `json:"n"`
+	Mismatch int    `json:"mismatch"`
 	First    string `json:"first"`
 }
 
@@ -104,7 +104,7 @@ func realDecode(enc []byte, o flOpts) ([]*receiver.File, int32, error) {
 
 type discardLogger struct{}
 
-func (discardLogger) Printf(string, ...any)      {}
+func (discardLogger) Printf(string, ...any)    {}
 func (discardLogger) Output(int, string) error { return nil }
 
 func toEntries(fl []*receiver.File, o flOpts) []flEntry {
